@@ -236,6 +236,9 @@ func (g *Gen) run() {
 		g.cur, g.st = cur, st
 
 		_, isHead := g.loopOf[b]
+		if !isHead && b.Comment != "recover" {
+			g.smokePts = append(g.smokePts, smokePt{fmt.Sprintf("block%d(%s)", b.Index, b.Comment), cur})
+		}
 		if isHead {
 			// loop cut: invariant on entry, havoc, assume invariant
 			ord := g.loopOf[b]
@@ -293,7 +296,7 @@ func (g *Gen) run() {
 			g.tagAlloc[ltag] = na
 			for _, k := range wl {
 				if t, ok := st.heaps[k]; ok {
-					g.verAlloc[t] = na
+					g.setVerAlloc(k, t, na)
 				}
 			}
 			for _, in := range b.Instrs {
@@ -313,6 +316,8 @@ func (g *Gen) run() {
 			for _, a := range g.autoInv(b, func(p *ssa.Phi) Val { return g.vals[p] }) {
 				g.assume(a)
 			}
+			// reachability of the loop head under its invariant
+			g.smokePts = append(g.smokePts, smokePt{fmt.Sprintf("loophead%d", ord), g.cur})
 		} else {
 			// ordinary phis
 			for _, in := range b.Instrs {
@@ -966,7 +971,7 @@ func (g *Gen) indexAddr(x *ssa.IndexAddr) {
 			g.bail("slice of struct values")
 		}
 		g.vals[x] = Val{Loc: &Loc{Kind: LElem, Heap: elemHeapName(u.Elem()), Base: sx("s-arr", v.T),
-			Idx: g.define("ix", "Int", sx("+", sx("s-off", v.T), i.T)), S: g.sortOf(u.Elem()), G: u.Elem()}, G: x.Type()}
+			Idx: sx("idx", sx("s-off", v.T), i.T), S: g.sortOf(u.Elem()), G: u.Elem()}, G: x.Type()}
 	case *types.Pointer:
 		at := u.Elem().Underlying().(*types.Array)
 		if v.Loc != nil {
@@ -1255,6 +1260,7 @@ func (g *Gen) chanSend(st *State, ch, boxed string) {
 
 func (g *Gen) ret(x *ssa.Return) {
 	g.retReach = append(g.retReach, g.cur)
+	g.smokePts = append(g.smokePts, smokePt{fmt.Sprintf("return@%s", trimPkgPos(g.P.fset.Position(x.Pos()).String())), g.cur})
 	if g.ct == nil {
 		g.cur = "false"
 		return
